@@ -34,6 +34,8 @@ type grpcSite struct {
 }
 
 func runC20(c *Ctx) {
+	c.Rule("O20.7", "payload and metadata are rendered from their own templates: the gRPC scenario templater (one per gun, shared by all scenarios and calls) keys its cache of parsed templates by the template text (see templateCacheRule) - metadata named 'payload', or two scenario/call pairs whose names concatenate to the same string, must not get another template")
+	templateCacheRule(c, "O20.7", "components/guns/grpc/scenario")
 	c.Rule("O20.1", "method: the descriptor handed to Stub.InvokeRpc is the one looked up in the gun's method table under the entry's call name; a missing method returns without invoking")
 	c.Rule("O20.2", "message: the request message is dynamic.NewMessage(method.GetInputType()) filled by UnmarshalJSON from the entry's payload (JSON-marshalled map, or the rendered template); an unmarshal error returns without invoking, with code 400")
 	c.Rule("O20.3", "metadata and timeout: the context of InvokeRpc is NewOutgoingContext(ctx, metadata.New(<entry metadata>)) over context.WithTimeout(_, t) with t = Conf.Timeout on its non-zero edge and the default otherwise; cancel is deferred")
